@@ -148,9 +148,10 @@ def ctxC (m : MacState) (s : Session) : MacCtx := { cfg := m.cfg, region := m.re
 /-- `m'` is reached from `m` by the acts, in order -/
 def Acts : MacState → List Act → MacState → Prop
   | m, [], m' => m' = m
-  | m, .accC N d :: rest, m' => ∃ s, m.st = .joined s ∧ Acts (acceptState m s d N (ctxC m s)) rest m'
+  | m, .accC N d :: rest, m' => ∃ s, m.st = .joined s ∧ N < 4294967296 ∧ Acts (acceptState m s d N (ctxC m s)) rest m'
   | m, .accA N d snr :: rest, m' =>
-    ∃ s ctx, m.st = .joined s ∧ acceptCmds s.pending m.cfg m.region d snr false = .ok ctx ∧ Acts (acceptState m s d N ctx) rest m'
+    ∃ s ctx, m.st = .joined s ∧ N < 4294967296 ∧ acceptCmds s.pending m.cfg m.region d snr false = .ok ctx ∧
+      Acts (acceptState m s d N ctx) rest m'
   | m, .tmo :: rest, m' => Acts (timeoutState m) rest m'
 
 theorem Acts.append {m m1 m' : MacState} {a b : List Act} (h1 : Acts m a m1) (h2 : Acts m1 b m') : Acts m (a ++ b) m' := by
@@ -160,12 +161,12 @@ theorem Acts.append {m m1 m' : MacState} {a b : List Act} (h1 : Acts m a m1) (h2
     cases x with
     | accC N d =>
       simp only [List.cons_append, Acts] at h1 ⊢
-      obtain ⟨s, hs, h⟩ := h1
-      exact ⟨s, hs, ih h⟩
+      obtain ⟨s, hs, hN, h⟩ := h1
+      exact ⟨s, hs, hN, ih h⟩
     | accA N d snr =>
       simp only [List.cons_append, Acts] at h1 ⊢
-      obtain ⟨s, ctx, hs, hc, h⟩ := h1
-      exact ⟨s, ctx, hs, hc, ih h⟩
+      obtain ⟨s, ctx, hs, hN, hc, h⟩ := h1
+      exact ⟨s, ctx, hs, hN, hc, ih h⟩
     | tmo =>
       simp only [List.cons_append, Acts] at h1 ⊢
       exact ih h1
@@ -177,14 +178,14 @@ theorem Acts.split {m m' : MacState} {a b : List Act} (h : Acts m (a ++ b) m') :
     cases x with
     | accC N d =>
       simp only [List.cons_append, Acts] at h ⊢
-      obtain ⟨s, hs, h⟩ := h
+      obtain ⟨s, hs, hN, h⟩ := h
       obtain ⟨m1, h1, h2⟩ := ih h
-      exact ⟨m1, ⟨s, hs, h1⟩, h2⟩
+      exact ⟨m1, ⟨s, hs, hN, h1⟩, h2⟩
     | accA N d snr =>
       simp only [List.cons_append, Acts] at h ⊢
-      obtain ⟨s, ctx, hs, hc, h⟩ := h
+      obtain ⟨s, ctx, hs, hN, hc, h⟩ := h
       obtain ⟨m1, h1, h2⟩ := ih h
-      exact ⟨m1, ⟨s, ctx, hs, hc, h1⟩, h2⟩
+      exact ⟨m1, ⟨s, ctx, hs, hN, hc, h1⟩, h2⟩
     | tmo =>
       simp only [List.cons_append, Acts] at h ⊢
       exact ih h
@@ -400,7 +401,7 @@ theorem rxcs_joined (mp : Nat) (cs : List (RxView × Int)) (hv : csOk cs = true)
         refine ⟨m', s', ?_, ?_, hst', ?_, ?_, ?_, hl', ?_⟩
         · simp only [acceptM, acceptCmds_c, bind, Except.bind, pure, Except.pure, hrun, refRxcs, stOf, hs, acceptOut_eq]
         · simp only [refRxcs, stOf, hs, Acts]
-          exact ⟨s, hst, hacts⟩
+          exact ⟨s, hst, fresh_lastOk hw (accepts_some.mp ha).2.1 N rfl, hacts⟩
         · rw [hc, (acceptState_cfg m s d N (ctxC m s)).1]; rfl
         · rw [hr, (acceptState_cfg m s d N (ctxC m s)).2]; rfl
         · simp only [refRxcs, stOf, hs]; exact hp
@@ -500,7 +501,7 @@ theorem winC_joined (cc : Bool) (m : MacState) (s : Session) (hst : m.st = .join
       obtain ⟨rfl, rfl, rfl⟩ := hres
       have hacc : accepts s1.fcntDown d mp = some N ∧ d.fcnt16 < 65536 := (specWindow_accepted hf hsw).2
       refine ⟨rfl, rfl, hacts.append ?_, _, acceptState_st m1 s1 d N ctx, ?_, ?_, ?_, ?_⟩
-      · simp only [Acts]; exact ⟨s1, ctx, hst1, hctx, rfl⟩
+      · simp only [Acts]; exact ⟨s1, ctx, hst1, lastOk_accepts hacc.2 hacc.1 N rfl, hctx, rfl⟩
       · rw [acceptFinish_session_eq]; simp only [stOf, hfu]
       · rw [acceptFinish_session_eq]; exact lastOk_accepts hacc.2 hacc.1
       · rw [acceptFinish_session_eq]; exact hcf1
